@@ -23,7 +23,7 @@ func runC05(c *Ctx) {
 		wordBits    int
 	}{{"blake2b", 128, 64, 64}, {"blake2s", 64, 32, 32}} {
 		n := c.asmGuardCheck("C05.dispatch", pk.pkg)
-		c.check(n >= 3, "C05.dispatch", pk.pkg+" assembly call sites", nil, fmt.Sprintf("%d guarded call sites", n), "fewer assembly call sites than the three dispatch arms")
+		c.check(n < 0 || n >= 3, "C05.dispatch", pk.pkg+" assembly call sites", nil, fmt.Sprintf("%d guarded call sites", n), "fewer assembly call sites than the three dispatch arms")
 		pur := newPurity()
 		for _, m := range []string{"(*digest).Sum", "(*digest).finalize"} {
 			f := c.fn(pk.pkg, m)
